@@ -16,6 +16,7 @@ NOTE = ("Trusted: bitarray C extension (replaced by a model that is differential
 
 # property -> (technique, design section, extra note) ; None = not yet claimed
 CLAIMED = {
+    'C14': ("symbolic execution (CrossHair/z3) of every Array operation, one step from an arbitrary state (items + trailing bits, symbolic data), against a bit-level list model", "DESIGN.md 5/C14", ""),
     'C19': ("symbolic execution (CrossHair/z3) of str/repr shape on symbolic contents, solver-enumerated re-parse, pp layout with symbolic width/offset over a format catalogue, Array repr eval-back", "DESIGN.md 5/C19", ""),
     'C18': ("symbolic execution (CrossHair/z3) of every struct code x prefix against a reference struct encoder (documented semantics, cross-checked with the struct module), endian relations and byteswap", "DESIGN.md 5/C18", "Three call sites ('@l', '@L', '@' with alignment padding) are recorded known findings: bitstring documents '@' as '='."),
     'C08': ("symbolic execution (CrossHair/z3), 2-safety: object built through each construction route (fake mmap over symbolic file content, windows, slices) vs in-memory twin under an operation catalogue", "DESIGN.md 5/C08", ""),
